@@ -146,8 +146,10 @@ class Page:
     """one page: handler path, vary rules (rule name, xform, default, request header name or None), server cache
     preference (2 Full / 1 QueryMatters), body prefix, and the path or pattern its rule set is registered under"""
 
-    def __init__(self, path, rules, spref=2, prefix=None, rule_path=Ellipsis, echo=None, picky=False):
+    def __init__(self, path, rules, spref=2, prefix=None, rule_path=Ellipsis, echo=None, picky=False, echo_query=True, handler=True):
         self.path, self.rules, self.spref, self.prefix = path, rules, spref, prefix
+        self.echo_query = echo_query                    # QueryMatters pages: handler kind 5 (echoes the request's query)
+        self.handler = handler                          # False: a rule set only (the path is served by an extension of kvarn)
         self.picky = picky                              # handler kind 6: no server caching for some tuples
         self.rule_path = path if rule_path is Ellipsis else rule_path
         self.echo = rules if echo is None else echo     # what the handler renders (normally the rules' tuple)
@@ -224,7 +226,8 @@ def as_pages(pages):
     return [p if isinstance(p, Page) else Page(p[0], p[1]) for p in pages]
 
 
-def config(pages, cache=True, default_ext=False, report=None):
+def config(pages, cache=True, default_ext=False, report=None, routes=None):
+    """routes: [(public path, internal target "/./..."[?query])] - the Prime extension of harness/src/c05.rs (cfg ovroutes)"""
     pages = as_pages(pages)
     hs, vs, seen = [], [], set()
     for i, pg in enumerate(pages):
@@ -234,12 +237,15 @@ def config(pages, cache=True, default_ext=False, report=None):
         # query is then visible in the body
         # picky pages (handler kind 6, harness/src/c05.rs): the handler declares no server caching for the tuples whose
         # first component is empty or starts with 'n', 'z', '0': variants that handle_vary_missing must not admit
-        hs.append(pipe.H(pg.path, kind=6 if pg.picky else 5 if pg.spref == 1 else 3, body=prefix, spref=pg.spref, tuple_=tup))
+        if pg.handler:
+            hs.append(pipe.H(pg.path, kind=6 if pg.picky else 5 if pg.spref == 1 and pg.echo_query else 3, body=prefix, spref=pg.spref,
+                             tuple_=tup))
         if pg.rule_path is not None and pg.rule_path not in seen and (pg.rules or i % 2 == 0 or pg.rule_path != pg.path):
             seen.add(pg.rule_path)
             vs.append(pipe.vary_rule(pg.rule_path, [(n, xf, d) for (n, xf, d, _) in pg.rules]))
+    extra = {"ovroutes": [xl(xb(a), xb(b)) for (a, b) in routes]} if routes else {}
     return pipe.cfg(cache=cache, default_ext=default_ext, handlers=hs, vary=vs, report=[xb(r) for r in (report or REPORT)],
-                    disable_ims=False)
+                    disable_ims=False, **extra)
 
 
 def dumps(pages):
@@ -554,6 +560,92 @@ def overlap(rng, wire_=False):
     return mk(cfg, history_ops(reqs, second, pages), "overlap")
 
 
+def internal_routes(rng, mode="run"):
+    """pages served through an internal route: a Prime extension (cfg ovroutes, harness/src/c05.rs) answers the public path
+    with an internal URI "/./..." - the request keeps its URI, the page is handled, looked up and cached under the internal
+    one, and the vary rules are those registered for the INTERNAL path (in the arm of handle_cache that creates the item
+    and in handle_vary_missing alike), not those of the public path (which has a rule set of its own, on other headers).
+    Two public paths may share one internal page; with the default extensions the redirect Prime runs first
+    ("/d/" -> "/d/index.html" -> "/./d") and a foreign `origin` is rerouted to "/./cors_fail" (rules on it are advertised)."""
+    wire_ = mode == "wire"
+    r_int = gen_rules(rng, rng.choice([1, 1, 2]), p_overlap=0.05)
+    while not any(rq for (_, _, _, rq) in r_int):
+        r_int = gen_rules(rng, rng.choice([1, 2]), p_overlap=0.05)
+    names = {r[0].lower() for r in r_int}
+    r_pub = [r for r in gen_rules(rng, rng.choice([0, 1, 1, 2]), p_overlap=0.05) if r[0].lower() not in names]
+    r_cors = gen_rules(rng, 1, p_overlap=0.0)
+    default_ext = rng.random() < 0.35
+    qm = rng.random() < 0.2 and mode != "spec"
+    internal = b"/./lang"
+    # (the handler of an internal route does not render the URI of the page it is served for: kvarn caches it under the internal URI)
+    pages = [Page(internal, r_int, spref=1 if qm else 2, prefix=LONG + b"I" if rng.random() < 0.15 else b"I", echo_query=False),
+             Page(b"/hi", r_pub, prefix=b"P"),
+             Page(b"/w", r_pub if rng.random() < 0.5 else r_int, prefix=b"W")]
+    publics = [b"/hi", b"/hej"]
+    routes = [(b"/hi", internal + (b"?x=1" if qm and rng.random() < 0.5 else b"")), (b"/hej", internal)]
+    if default_ext:
+        pages.append(Page(b"/./d", r_int, prefix=b"D"))
+        routes.append((b"/d/index.html", b"/./d"))
+        publics.append(b"/d/")
+        pages.append(Page(b"/./cors_fail", r_cors, handler=False))      # (a rule set only: kvarn's own handler answers)
+    cfg = config(pages, default_ext=default_ext, report=WIRE_REPORT if wire_ else None, routes=routes)
+    both = r_int + r_pub
+    pool = []
+    for t in publics + [b"/w"]:
+        pool += request_set(rng, t, both, rng.randrange(2, 5), methods=(b"GET", b"GET", b"GET", b"HEAD"), p_query=0.3 if qm else 0.05,
+                            p_repeat=0.0 if wire_ else 0.1, encodings=False)
+    if wire_:
+        clean = []
+        for r in pool:
+            hdrs = [(h[1][0][1], h[1][1][1]) for h in r[1][4][1]]
+            hdrs = [(n, v) for (n, v) in hdrs if v == v.strip(b" \t")]
+            hdrs = [(n, v) for k, (n, v) in enumerate(hdrs) if n not in [m for (m, _) in hdrs[:k]]]
+            if rng.random() < 0.35 and not any(n == b"range" for (n, _) in hdrs):
+                hdrs.append((b"range", rng.choice(RANGES)))
+            clean.append(pipe.req(r[1][3][1], method=r[1][2][1], headers=hdrs))
+        pool = clean
+    ops = []
+    for _ in range(rng.randrange(8, 18)):
+        x = rng.random()
+        r = rng.choice(pool)
+        if default_ext and x < 0.12:
+            hdrs = [(h[1][0][1], h[1][1][1]) for h in r[1][4][1]]
+            hdrs.append((b"origin", rng.choice([b"https://evil.example", b"https://evil.example", b"http://localhost"])))
+            r = pipe.req(r[1][3][1], method=r[1][2][1], headers=hdrs)
+        elif mode != "spec" and x < 0.22:
+            hdrs = [(h[1][0][1], h[1][1][1]) for h in r[1][4][1]]
+            hdrs.append((b"if-modified-since", b"@T+100" if rng.random() < 0.7 else b"@T-100"))
+            r = pipe.req(r[1][3][1], method=r[1][2][1], headers=hdrs)
+        ops.append(r)
+        y = rng.random()
+        if y < 0.05:
+            ops.append(pipe.clear_page(rng.choice([internal, b"/hi", internal + b"?x=1"])))
+        elif y < 0.12 and not wire_:
+            ops.append(dump(rng.choice([internal, b"/hi", internal + b"?x=1"]), len(r_int)))
+    if not wire_:
+        ops += [dump(internal, len(r_int)), dump(internal + b"?x=1", len(r_int)), dump(b"/hi", len(r_pub)), dump(b"/hej", 0)]
+        if default_ext:
+            ops.append(dump(b"/./d", len(r_int)))
+    return mk(cfg, ops, "internal-route" + ("-wire" if wire_ else ""), spec=(mode == "spec"), comp="vary.wire" if wire_ else "vary.run")
+
+
+def internal_interleaved(rng):
+    """a request to an internal route suspended in its handler while the item is cleared / another variant arrives: the arm of
+    handle_vary_missing that creates a new item takes the rules of the internal path, too"""
+    rules = [(b"x-a", 0, b"dflt", b"x-a")]
+    r_pub = [(b"x-b", 0, b"p", b"x-b")] if rng.random() < 0.6 else []
+    pages = [Page(b"/./v", rules, prefix=b"I"), Page(b"/v", r_pub, prefix=b"P")]
+    cfg = config(pages, routes=[(b"/v", b"/./v")])
+    vals = rng.sample([b"a", b"b", b"c", b"d", b"e", b"f"], 5)
+    R = lambda v: pipe.req(b"/v", headers=[(b"x-a", v), (b"x-b", rng.choice([b"m", b"n"]))])
+    pre = [R(v) for v in vals[:rng.randrange(1, 3)]]
+    mid = [pipe.clear_page(b"/./v")] if rng.random() < 0.6 else []
+    mid += [R(v) for v in vals[3:3 + rng.randrange(0, 2)]]
+    ops = pre + [park(b"/v", headers=[(b"x-a", vals[2]), (b"x-b", b"m")])] + mid + [release(), dump(b"/./v", 1), dump(b"/v", len(r_pub))]
+    ops += [R(v) for v in vals] + [dump(b"/./v", 1)]
+    return mk(cfg, ops, "internal-route-interleaved", spec=False)
+
+
 def malformed(rng):
     """rule names that add_rule rejects (panic while the host is built), odd header values"""
     bad = rng.choice([b"x\x01a", b"x\x7f", b"caf\xc3\xa9", b"\x00"])
@@ -678,6 +770,10 @@ def generate(rng, tier):
         cases += [picky(rng, True) for _ in range(12)]
         cases += [overlap(rng) for _ in range(40)]
         cases += [overlap(rng, True) for _ in range(12)]
+        cases += [internal_routes(rng, "spec") for _ in range(30)]
+        cases += [internal_routes(rng, "run") for _ in range(40)]
+        cases += [internal_routes(rng, "wire") for _ in range(20)]
+        cases += [internal_interleaved(rng) for _ in range(12)]
     else:
         cases += exhaustive_orders(rng, 2, "orders", 20)
         cases += exhaustive_orders(rng, 3, "orders", 60)
@@ -697,6 +793,10 @@ def generate(rng, tier):
         cases += [picky(rng, True) for _ in range(300)]
         cases += [overlap(rng) for _ in range(1000)]
         cases += [overlap(rng, True) for _ in range(300)]
+        cases += [internal_routes(rng, "spec") for _ in range(800)]
+        cases += [internal_routes(rng, "run") for _ in range(1000)]
+        cases += [internal_routes(rng, "wire") for _ in range(400)]
+        cases += [internal_interleaved(rng) for _ in range(300)]
     return cases
 
 
@@ -714,6 +814,10 @@ def directed(rng, mismatches):
     cases += [picky(rng, True) for _ in range(40)]
     cases += [overlap(rng) for _ in range(100)]
     cases += [overlap(rng, True) for _ in range(30)]
+    cases += [internal_routes(rng, "spec") for _ in range(100)]
+    cases += [internal_routes(rng, "run") for _ in range(100)]
+    cases += [internal_routes(rng, "wire") for _ in range(40)]
+    cases += [internal_interleaved(rng) for _ in range(40)]
     return cases
 
 
@@ -816,6 +920,11 @@ class _Cfg:
             f = h[1]      # a later handler for the same path replaces the earlier one
             self.pages[f[0][1]] = {"kind": f[1][1], "prefix": f[3][1], "spref": f[5][1],
                                    "tuple": [(t[1][0][1], t[1][1][1], t[1][2][1]) for t in f[9][1]]}
+        self.routes = []
+        for r in kv_.get(b"ovroutes", ("L", []))[1]:
+            to_path, to_q = _split(r[1][1][1])
+            if to_path.startswith(b"/./"):
+                self.routes.append((r[1][0][1], to_path, to_q))
         self.vary = []
         for r in kv_.get(b"vary", ("L", []))[1]:
             pat = r[1][0][1]
@@ -838,6 +947,19 @@ class _Cfg:
         if self.default_ext and path.endswith(b"/"):
             return path + b"index.html"
         return path
+
+    def lookup(self, path, q, hdrs):
+        """(path, query) of the URI the page is handled, looked up and cached under: the internal URI a Prime extension
+        answered with - the route table of cfg ovroutes (on the rewritten path), else with the default extensions the CORS
+        denial "/./cors_fail" for an `origin` that is not the request's own - or the request's (rewritten) URI"""
+        for (frm, to_path, to_q) in self.routes:
+            if frm == path:
+                return to_path, to_q
+        if self.default_ext and b"origin" in hdrs:
+            o = hdrs[b"origin"]
+            if not (_text(o) and o == b"http://" + hdrs.get(b"host", b"localhost")):
+                return b"/./cors_fail", None
+        return path, q
 
     def own(self, path, hdrs):
         out = []
@@ -953,7 +1075,9 @@ def _history_oracle(c, out, wire_):
         method, target = o[1][2][1], o[1][3][1]
         hdrs = _first_headers(o)
         path0, q = _split(target)
-        path = cf.prime(path0)
+        # `path`, `cq`: the URI the page is cached under (an internal route's: its rules, its handler, its cache keys);
+        # `q`: the query of the request itself (what a handler that echoes the query sees)
+        path, cq = cf.lookup(cf.prime(path0), q, hdrs)
         status, reported, body = x[1][0][1], x[1][1][1], x[1][2][1]
         log = x[1][-1][1]
         where = "request #%d %s %s %r: " % (n, method.decode(), target.decode("latin1"), sorted(hdrs.items()))
@@ -977,7 +1101,7 @@ def _history_oracle(c, out, wire_):
         # an item (kvarn 8fe98d4) - every request for it runs the handler
         refused = cf.refused(path, hdrs)
         if gh and cf.cache:
-            kpq, kp = ("pq", path, q), ("p", path)
+            kpq, kp = ("pq", path, cq), ("p", path)
             key = kpq if kpq in store else kp if kp in store else None
             if key is not None:
                 fresh = _ims_fresh(hdrs) if cf.ims else False
@@ -1011,7 +1135,7 @@ def _history_oracle(c, out, wire_):
             if expect_calls == 0:
                 return where + "the handler was invoked although a response for the transformed tuple %r is stored" % (t,)
             return where + ("no handler invocation although no response for the transformed tuple %r (query %r) was computed since the last clear"
-                            % (t, q))
+                            % (t, cq))
         # -- what it says
         want = cf.rendering(path, q, hdrs)
         if wire_:
@@ -1062,7 +1186,7 @@ def extra_oracle(c, impl):
                 req, pending = pending, None
             if req is not None and c.comp == "vary.run" and x[0] == "L" and len(x[1]) == 6 and x[1][0][1] == 200:
                 path, q = _split(req[1][3][1])
-                path = cf.prime(path)
+                path, _ = cf.lookup(cf.prime(path), q, _first_headers(req))
                 if path in cf.pages:
                     want = cf.rendering(path, q, _first_headers(req))
                     if x[1][2][1] != want:
